@@ -146,6 +146,11 @@ func baseNextToken(l *Lexer) token.Token {
 		tok = l.NewTokenAt(token.RAW_STRING, l.readRawString(), startLine, startColumn)
 	case 0:
 		tok = l.NewToken(token.EOF, "")
+		if l.position >= len(l.input) {
+			// real end of input: do not advance, so that repeated requests
+			// keep reporting end-of-input at the same position
+			return tok
+		}
 	default:
 		if isLetter(l.CurrentChar) {
 			// Capture position BEFORE reading the identifier
